@@ -367,7 +367,7 @@ def decide(prop, plan, tier, seed, merged, wall):
     # vacuity guards: a model-checking run that merged nothing or observed one outcome is suspicious
     c = merged["counters"]
     level = plan["level"]
-    if level == "model_checking" and c.get("states", 0) < 2:
+    if level == "model_checking" and c.get("states", 0) < 2 and not new:
         raise Machinery("vacuous exploration: fewer than 2 states")
     if c.get("evaluations", 0) < 1:
         raise Machinery("vacuous run: no evaluations")
